@@ -357,7 +357,9 @@ where
       | none => (m, "nogen")
       | some op =>
         let fresh := match T.opDot op with
-          | some d => if m.ops.any (fun (n, o) => n != name && T.opDot o == some d) then " fresh=FAIL" else " fresh=ok"
+          | some d =>
+            if m.forgot.getD r false then " fresh=na"
+            else if m.ops.any (fun (n, o) => n != name && T.opDot o == some d) then " fresh=FAIL" else " fresh=ok"
           | none => ""
         let m' := ({ m with ops := setKey name op m.ops }.setRep r (T.apply s op)).learn r [name]
         let gs := T.genSpec s a args
